@@ -550,6 +550,58 @@ func (p *Peer) retryReplicators(ctx context.Context) {
 	}
 }
 
+// clearInterruptedReplicatorRetries resets the retrying mark of every persisted retry record.
+//
+// The mark is set while a retry round runs and cleared when it ends. A round does not outlive the
+// process, so a mark found at start belongs to a round that was interrupted.
+func (p *Peer) clearInterruptedReplicatorRetries(ctx context.Context) error {
+	peerstore := datastore.PeerstoreFrom(p.db.Rootstore())
+	iter, err := peerstore.Iterator(ctx, corekv.IterOptions{
+		Prefix: []byte(keys.REPLICATOR_RETRY_ID),
+	})
+	if err != nil {
+		return err
+	}
+	interrupted := map[string]retryInfo{}
+	for {
+		hasNext, err := iter.Next()
+		if err != nil {
+			return errors.Join(err, iter.Close())
+		}
+		if !hasNext {
+			break
+		}
+		value, err := iter.Value()
+		if err != nil {
+			return errors.Join(err, iter.Close())
+		}
+		rInfo := retryInfo{}
+		if err := cbor.Unmarshal(value, &rInfo); err != nil {
+			// left to the retry loop, which removes records it cannot read
+			continue
+		}
+		if rInfo.Retrying {
+			interrupted[string(iter.Key())] = rInfo
+		}
+	}
+	err = iter.Close()
+	if err != nil {
+		return err
+	}
+	for key, rInfo := range interrupted {
+		rInfo.Retrying = false
+		b, err := cbor.Marshal(rInfo)
+		if err != nil {
+			return err
+		}
+		err = peerstore.Set(ctx, []byte(key), b)
+		if err != nil {
+			return err
+		}
+	}
+	return nil
+}
+
 func (p *Peer) setReplicatorAsRetrying(ctx context.Context, key keys.ReplicatorRetryIDKey, rInfo retryInfo) error {
 	rInfo.Retrying = true
 	rInfo.NumRetries++
